@@ -521,4 +521,124 @@ Proof.
     + rewrite Hvt', m_tt_x_m3, Hnv1, Hk1, Hk'. cbn [state_kind_eqb]. rewrite Hl', (Vaw Hkf). exact Vtt.
 Qed.
 
+(* ---- API calls ---- *)
+
+Lemma vi_api a f apps buf tl m g c f' :
+  Base A p n f apps buf tl m -> VI f tl m g c -> api_result p a f = Ok f' ->
+  exists c', VI f' tl (fst (mon_after_api a (view_of f') m g)) (snd (mon_after_api a (view_of f') m g)) c'.
+Proof.
+  intros HB [Vinv Vout Vturn Vdecl Vltt Voff Vvis] E.
+  assert (Hnew : forall f1 v k, fdl_new p = Ok f1 -> VI f1 tl (mon_reset v k) mon2_reset cst_init).
+  { intros f1 v k E1. pose proof (Inv_init n _ _ E1) as Hi.
+    destruct (fdl_new_spec _ _ E1) as ((S1 & _ & _ & L1 & _) & _).
+    constructor; try reflexivity; try exact Hi.
+    - rewrite L1. exact (b_tl _ _ _ _ _ _ _ _ HB).
+    - intros _. exact L1.
+    - rewrite S1. cbn. symmetry. exact L1. }
+  destruct a; cbn [api_result mon_after_api fst snd] in *.
+  - exists cst_init. apply Hnew. exact E.
+  - unfold set_online, set_state in E. injection E as <-. exists c. constructor; cbn; assumption.
+  - unfold set_offline, set_state in E. rewrite (b_p _ _ _ _ _ _ _ _ HB) in E. exists cst_init. apply Hnew. exact E.
+  - discriminate E.
+Qed.
+
+Definition J5 (f : fdl) (apps : list A) (buf : bytes) (tl : Z) (m : mon) (g : mon2) : Prop :=
+  Base A p n f apps buf tl m /\ exists c, VI f tl m g c.
+
+Lemma J5_poll f apps buf tl m g now busy nb f' o apps' calls :
+  J5 f apps buf tl m g -> tl < now -> time_ok now -> all_bytes nb ->
+  poll ops f now (mkPhyIn busy (buf ++ nb)) apps = Ok (f', o, apps', calls) ->
+  (exists c', step1315 m g (poll_event now busy (buf ++ nb) f' o calls) f' now c') /\
+  Base A p n f' apps' (rx_left o) now (fst (mon_poll p n m (poll_event now busy (buf ++ nb) f' o calls))).
+Proof.
+  intros (HB & c & HV) Hlt Hnow Hnb E. split.
+  - destruct (visit_tk (f_state f)) as [tk|] eqn:Etk.
+    + eapply visit_step_ok; eassumption.
+    + eapply quiet_step; eassumption.
+  - eapply base_poll; try eassumption. lia.
+Qed.
+
 End S5.
+
+(* ------------------------------------------------------------------------------------------ *)
+(* the theorems                                                                                *)
+
+Section Theorems5.
+Variable A : Type.
+Variable ops : app_ops A.
+Variable p : params.
+Hypothesis Happs : apps_total A ops.
+Hypothesis Hbv : builder_valid p.
+Hypothesis Hdata : app_sends_data A ops.
+
+Lemma J5_init n f0 apps : fdl_new p = Ok f0 -> length apps = n ->
+  J5 A p n f0 apps [] 0 (mon_reset (view_of f0) 0) mon2_reset.
+Proof.
+  intros E Hn. split; [eapply base_init; eassumption|]. exists cst_init.
+  pose proof (Inv_init n _ _ E) as Hi. destruct (fdl_new_spec _ _ E) as ((S1 & _ & _ & L1 & _) & _).
+  constructor; try reflexivity; try exact Hi.
+  - rewrite L1. lia.
+  - intros _. exact L1.
+  - rewrite S1. cbn. symmetry. exact L1.
+Qed.
+
+(* C13: no rule of C13 fires on a transcript of the model (no class of inputs excluded) *)
+Theorem c13_oracle_sound (apps : list A) (ins : list minput) :
+  ins_ok 0 ins ->
+  forall k r, In (k, r) (monitor p (length apps) (model_transcript A ops p apps ins)) -> rule_prop r <> PC13.
+Proof.
+  intros Hok.
+  apply (generic_sound_transcript A ops p (length apps) (fun r => rule_prop r <> PC13) (J5 A p (length apps)) (fun _ => True));
+    try assumption; try reflexivity.
+  - discriminate.
+  - intros a f apps0 buf tl m g f' (HB & c & HV) E _. split; [eapply base_api; eassumption|].
+    eapply vi_api; eassumption.
+  - intros f apps0 buf tl m g now busy nb f' o apps' calls HJ Hlt Hnow Hnb E _.
+    destruct (J5_poll A ops p (length apps) Happs Hbv Hdata _ _ _ _ _ _ _ _ _ _ _ _ _ HJ Hlt Hnow Hnb E)
+      as ((c' & Hf & H15 & H13 & Hrr & Hend & HV') & HB').
+    split; [|split; [|split; [exact HB'|exists c'; rewrite fst_mon_poll, mon_poll2_eq; exact HV']]].
+    + apply (mon_poll_errs_other PC13); try discriminate. rewrite Hf. apply onlyp_nil.
+    + apply (mon_poll2_errs_other PC13); try discriminate; [intros _; exact H13|apply y_e_live_other; discriminate].
+  - intros f0 apps0 E Hn _. apply J5_init; assumption.
+  - unfold transcript_ok. destruct (fdl_new p); [split; [exact I|apply run_ok_true]|exact I|exact I].
+Qed.
+
+(* C15: no rule of C15 fires, except possibly the liveness rule R15_no_reply_no_timeout (not covered here) *)
+Theorem c15_oracle_sound_partial (apps : list A) (ins : list minput) :
+  ins_ok 0 ins ->
+  forall k r, In (k, r) (monitor p (length apps) (model_transcript A ops p apps ins)) ->
+  rule_prop r = PC15 -> r = R15_no_reply_no_timeout.
+Proof.
+  intros Hok.
+  apply (generic_sound_transcript A ops p (length apps) (fun r => rule_prop r = PC15 -> r = R15_no_reply_no_timeout)
+           (J5 A p (length apps)) (fun _ => True)); try assumption; try reflexivity.
+  - discriminate.
+  - intros a f apps0 buf tl m g f' (HB & c & HV) E _. split; [eapply base_api; eassumption|].
+    eapply vi_api; eassumption.
+  - intros f apps0 buf tl m g now busy nb f' o apps' calls HJ Hlt Hnow Hnb E _.
+    destruct (J5_poll A ops p (length apps) Happs Hbv Hdata _ _ _ _ _ _ _ _ _ _ _ _ _ HJ Hlt Hnow Hnb E)
+      as ((c' & Hf & H15 & H13 & Hrr & Hend & HV') & HB').
+    split; [|split; [|split; [exact HB'|exists c'; rewrite fst_mon_poll, mon_poll2_eq; exact HV']]].
+    + intros r Hr Hp15. exfalso.
+      assert (Ho : onlyp (is_not PC15) (snd (mon_poll p (length apps) m (poll_event now busy (buf ++ nb) f' o calls)))).
+      { apply (mon_poll_errs_other PC15); try discriminate; [rewrite Hf; apply onlyp_nil|intros _; exact H15]. }
+      exact (Ho r Hr Hp15).
+    + intros r Hr Hp15. rewrite mon_poll2_eq in Hr. cbn [snd] in Hr.
+      rewrite Hrr, Hend, H13 in Hr. cbn [app] in Hr.
+      repeat (apply in_app_or in Hr; destruct Hr as [Hr|Hr]).
+      * exfalso. pose proof (y_e_found_only _ _ _ _ r Hr) as C. rewrite Hp15 in C. discriminate C.
+      * exfalso. pose proof (y_e_tok_only _ _ _ r Hr) as C. rewrite Hp15 in C. discriminate C.
+      * exfalso. pose proof (y_e_sweep_only _ _ _ _ r Hr) as C. rewrite Hp15 in C. discriminate C.
+      * exfalso. pose proof (y_e_scan_only _ _ _ _ r Hr) as C. rewrite Hp15 in C. discriminate C.
+      * (* the liveness group: the only C15 rule in it *)
+        unfold y_e_live in Hr.
+        destruct (y_quiet m g _ && y_expired p g _ && negb (y_acted m _)); [|contradiction].
+        repeat (apply in_app_or in Hr; destruct Hr as [Hr|Hr]).
+        -- destruct (y_waiting_c12 m); [destruct Hr as [<-|[]]; discriminate Hp15|contradiction].
+        -- destruct (state_kind_eqb _ _); [destruct Hr as [<-|[]]; discriminate Hp15|contradiction].
+        -- destruct (state_kind_eqb _ _); [destruct Hr as [<-|[]]; reflexivity|contradiction].
+  - intros f0 apps0 E Hn _. apply J5_init; assumption.
+  - unfold transcript_ok. destruct (fdl_new p); [split; [exact I|apply run_ok_true]|exact I|exact I].
+Qed.
+
+End Theorems5.
